@@ -7,7 +7,7 @@ META = dict(
     stubs=["SymFile/SymPath: duck-typed file set handed to the real bytes_repr_fileset; lstat() returns symbolic mtime/ctime/size/inode, "
            "byte_chunks() yields the current symbolic content", "IdealHash for blake2b (also names the persistent cache entries)",
            "persistent cache directory: a scratch directory on the real file system"],
-    outside=["directories with more than two members", "content longer than 3 bytes", "the operating system's time-stamp semantics beyond "
+    outside=["directories deeper than two levels", "content longer than 3 bytes", "the operating system's time-stamp semantics beyond "
              "the stated contract (ctime never decreases; any write, rename or utime sets ctime to the current coarse clock)"],
     assumptions=["the state abstraction: an arbitrary persistent cache produced by one earlier hashing of the same path, then an arbitrary "
                  "current file state; every real history (writes, renames, copies, utime) ends in such a pair of states"],
@@ -42,6 +42,44 @@ def _sym_history(c0, c1, st0, st1, fresh_session):
     T.reach()
     if h1 != want:
         return "content %r (stat %r) then %r (stat %r): second hash is stale (equals first: %s)" % (c0, st0, c1, st1, h1 == h0)
+    return None
+
+def _real_dir_history(op, same_size):
+    """a real Directory input: change something inside it between two hashings"""
+    from fileformats.generic import Directory
+    from crosshair.tracers import NoTracing
+    HH.uninstall()
+    d, loc, loc2 = E.scratch(), E.scratch(), E.scratch()
+    try:
+        with NoTracing():
+            root = Path(d) / "data"
+            (root / "sub").mkdir(parents=True)
+            (root / "top.txt").write_bytes(b"TTTT")
+            (root / "sub" / "f.txt").write_bytes(b"AAAA")
+            H.hash_object(Directory(root), persistent_cache=H.PersistentCache(loc))
+            time.sleep(0.03)
+            new = b"BBBB" if same_size else b"BBBBBB"
+            if op == 0:
+                (root / "sub" / "f.txt").write_bytes(new)          # nested file rewritten
+            elif op == 1:
+                (root / "top.txt").write_bytes(new)                # top-level file rewritten
+            elif op == 2:
+                (root / "sub" / "g.txt").write_bytes(new)          # file added in a sub-directory
+            elif op == 3:
+                st = (root / "sub" / "f.txt").stat()
+                (root / "sub" / "f.txt").write_bytes(new)
+                os.utime(root / "sub" / "f.txt", ns=(st.st_atime_ns, st.st_mtime_ns))
+            elif op == 4:
+                os.utime(root / "top.txt", None)                   # touched, content unchanged
+            h1 = H.hash_object(Directory(root), persistent_cache=H.PersistentCache(loc))
+            want = H.hash_object(Directory(root), persistent_cache=H.PersistentCache(loc2))
+    finally:
+        HH.install()
+        for x in (d, loc, loc2):
+            E.cleanup(x)
+    T.reach()
+    if h1 != want:
+        return "real directory: history op %d (same_size=%s) leaves a stale hash" % (op, same_size)
     return None
 
 def _same_tick_class(c0, c1, st0, st1):
@@ -102,7 +140,8 @@ def build(tier, seed, exclude):
         pre.append("not (c0 != c1 and len(c0) == len(c1) and m0 == m1 and t0 == t1 and i0 == i1)")
     g.cond("h_sym_history", "c0: bytes, c1: bytes, m0: int, m1: int, t0: int, t1: int, i0: int, i1: int, fresh: bool", pre, """
         c0, c1 = T.real(c0), T.real(c1)
-        pattern = (m0 == m1, t0 == t1, i0 == i1, m0 < m1)      # fork on the relations first, then pick values
+        pattern = (m0 == m1, t0 == t1, i0 == i1, m0 < m1, m0 > t0, m1 > t1, m0 > t1,
+                   t0 // 1000000000 == t1 // 1000000000)      # fork on the relations first, then pick values
         m0, m1, t0, t1, i0, i1 = T.real((m0, m1, t0, t1, i0, i1))
         err = _sym_history(c0, c1, (m0, t0, len(c0), i0), (m1, t1, len(c1), i1), fresh)
         return T.fail(err) if err else True
@@ -118,6 +157,10 @@ def build(tier, seed, exclude):
     """, timeout=to)
     g.cond("h_real_history", "op: int, same_size: bool", ["0 <= op < 5"], """
         err = _real_history(T.real(op), T.real(same_size))
+        return T.fail(err) if err else True
+    """, timeout=90)
+    g.cond("h_real_dir_history", "op: int, same_size: bool", ["0 <= op < 5"], """
+        err = _real_dir_history(T.real(op), T.real(same_size))
         return T.fail(err) if err else True
     """, timeout=90)
     g.cond("twin_c09", "c0: bytes", ["len(c0) <= 1"], """
